@@ -39,7 +39,7 @@ def c07_jobs(ctx, focus=()):
     r = ctx.rng
     jobs = []
     for nm in search.all_names():
-        for rep in range((1 if ctx.quick else 10) + (4 if nm in focus else 0)):
+        for rep in range((1 if ctx.quick else 10) * ctx.boost + (4 if nm in focus else 0)):
             seed = r.choice([42, 0, 1, 7, 123456, 2**31 - 1, r.randint(0, 10**6)])
             objs = ["sphere", "rastrigin", "step", "const"] if nm not in focus else ["const", "const", "step", "sphere"]    # const: every cost tied
             t = search.cont_task(obj=r.choice(objs), minmax=r.choice(["min", "max"]), seed=seed, dim=r.choice([2, 3]))
@@ -82,7 +82,7 @@ def c08_jobs(ctx):
     r = ctx.rng
     jobs = []
     for nm in search.all_names():
-        for _ in range(1 if ctx.quick else 10):
+        for _ in range((1 if ctx.quick else 10) * ctx.boost):
             n_prev = r.choice([1, 1, 2])
             last = search.cont_task(obj=r.choice(["sphere", "step", "shifted"]), seed=r.randint(0, 10**6), dim=r.choice([2, 3]), lo=-100.0, hi=100.0)
             prev = []
@@ -113,7 +113,7 @@ def c09_jobs(ctx):
     r = ctx.rng
     jobs = []
     for nm in search.all_names():
-        for _ in range(1 if ctx.quick else 10):
+        for _ in range((1 if ctx.quick else 10) * ctx.boost):
             mode = r.choice([None, None, None, "thread", "process"]) if not ctx.quick else r.choice([None, None, None, None, "thread"])
             t = search.cont_task(obj="sphere", seed=r.randint(0, 10**6), minmax=r.choice(["min", "max"]))
             if r.random() < 0.15:
@@ -155,7 +155,7 @@ def c12_jobs(ctx, names):
     r = ctx.rng
     jobs = []
     for nm in names:
-        for _ in range(1 if ctx.quick else 10):
+        for _ in range((1 if ctx.quick else 10) * ctx.boost):
             obj = r.choice(["sphere", "rastrigin", "step", "shifted", "linear", "lognan"])
             seed = r.randint(0, 10**6); dim = r.choice([2, 3]); lo, hi = r.choice([(-10.0, 10.0), (0.0, 5.0), (-3.0, 1.0)])
             if obj == "lognan": lo, hi = -10.0, 10.0
@@ -241,7 +241,7 @@ def c18_jobs(ctx):
         cfg = {"max_cycles": r.choice([2, 3]), "fitness_error": None}
         jobs.append(({"opt": nm, "cfg": cfg, "task": t, "via_set_config": True}, {"opt": nm, "cfg": cfg, "task": t}))
         # HyperTuner / Multitask style: an instance that already ran under another configuration is reconfigured and run again
-        for _ in range(1 if ctx.quick else 10):
+        for _ in range((1 if ctx.quick else 10) * ctx.boost):
             first = {**perturbed(r, search.fixture_scale(nm)), "max_cycles": 2, "fitness_error": None}
             t2 = search.cont_task(obj="sphere", seed=r.randint(0, 10**6))
             cfg2 = {"max_cycles": r.choice([3, 5]), "fitness_error": None}
